@@ -39,7 +39,7 @@ Singles == { H(<<o>>, "", "") : o \in Alphabet }
 Interesting ==
        { Op("exec", v, FALSE, "ok", "none") : v \in Fails } \cup { Op("exec", v, TRUE, "none", "none") : v \in Fails }
   \cup { Op("exec", "run", sa, "fail", "none") : sa \in BOOLEAN }
-  \cup { Op("exec", v, sa, "ok", c) : v \in {"run", "runslow"}, sa \in BOOLEAN, c \in {"pre", "running", "race"} }
+  \cup { Op("exec", "run", sa, "ok", c) : sa \in BOOLEAN, c \in {"pre", "running", "race"} }
   \cup { o \in Simple : o.v \in {"bad", "empty", "longbatch", "huge"} }
 Pairs == IF Level >= 2 THEN { H(<<a, b>>, "", "") : a \in Interesting, b \in Interesting } ELSE {}
 \* (c) the two select races, pinned with a gate on the host or a delay in init
